@@ -471,6 +471,16 @@ func nonEmptyOnSuccess(w *World, fn *ssa.Function) bool {
 }
 
 func dischargeBounds(w *World, c *simCtx, fn *ssa.Function, p *Path, e *Event) (bool, string) {
+	ok, why := dischargeBounds0(w, c, fn, p, e)
+	if !ok {
+		if ok2, why2 := linearBounds(w, c, fn, p, e); ok2 {
+			return true, why2
+		}
+	}
+	return ok, why
+}
+
+func dischargeBounds0(w *World, c *simCtx, fn *ssa.Function, p *Path, e *Event) (bool, string) {
 	base := e.Args[0]
 	if e.Kind == "slice" {
 		low, high := e.Args[1], e.Args[2]
@@ -709,6 +719,41 @@ func loopVarInfo(w *World, fn *ssa.Function, p *Path, lv *T) (init *T, step int6
 		step, have = l.Const, true
 	}
 	return init, step, have
+}
+
+// lockstep rewrites every loop variable in l that advances by a constant on
+// every back edge as init + step*K, K being the number of completed
+// iterations of its loop (one symbol per loop header): the variables of one
+// loop move in lock step, so `dst` (from off, +1) and a range index (from -1,
+// +1) are related by dst == off + index + 1.
+func lockstep(w *World, fn *ssa.Function, p *Path, l *Lin) *Lin {
+	out := &Lin{Coef: map[string]int64{}, Atom: map[string]*T{}, Const: l.Const}
+	for k, c := range l.Coef {
+		at := l.Atom[k]
+		if at.Op == "loopvar" {
+			if init, step, ok := loopVarInfo(w, fn, p, at); ok {
+				li := linearOf(init)
+				out.Const += c * li.Const
+				for k2, c2 := range li.Coef {
+					out.Coef[k2] += c * c2
+					out.Atom[k2] = li.Atom[k2]
+				}
+				ik := fmt.Sprintf("iterations#%d", at.C)
+				out.Coef[ik] += c * step
+				out.Atom[ik] = &T{Op: "iter", C: at.C}
+				continue
+			}
+		}
+		out.Coef[k] += c
+		out.Atom[k] = at
+	}
+	for k, c := range out.Coef {
+		if c == 0 {
+			delete(out.Coef, k)
+			delete(out.Atom, k)
+		}
+	}
+	return out
 }
 
 // loopVarSteps returns the entry value of a loop variable on path p and, for
